@@ -1,3 +1,7 @@
 import SmtpV.Props.C14
 #print axioms SmtpV.Props.C14.C14_xtext_roundtrip
 #print axioms SmtpV.Props.C14.C14_monitor_model
+#print axioms SmtpV.Props.C14.C14_tokenise
+#print axioms SmtpV.Props.C14.C14_params_parse
+#print axioms SmtpV.Props.C14.C14_mail_options_trip
+#print axioms SmtpV.Props.C14.C14_rcpt_options_trip
